@@ -10,7 +10,7 @@ From Coq Require Import List Arith Bool Reals QArith.
 From Coquelicot Require Import Coquelicot.
 From RV Require Import Base.RB Base.ExtNum Model.Copula Model.CopulaX Proofs.C11_Copula Proofs.C11_Clayton Proofs.C11_Increasing Proofs.C11_Dep3
   Proofs.C11_CondDist Proofs.C11_Mixed Proofs.C11_Mixed3 Proofs.C11_CondX Proofs.C11_W5
-  Gen.GenC11Clayton Proofs.C11_Gen.
+  Gen.GenC11Clayton Proofs.C11_Gen Model.CopulaX6 Proofs.C11_W6.
 Import ListNotations.
 Open Scope R_scope.
 
@@ -156,6 +156,61 @@ Example C11_nonvacuous_w5 :
    clayton_cond_x 2 (/ 4) (-3) PInf = 1 /\ clayton_cond_x 2 (/ 4) 0 NInf = 0).
 Proof. exact w5_nonvacuous. Qed.
 
+(* ---- wave 6 ------------------------------------------------------------------------------------------------------ *)
+(* DependentComponentsCopula.conditional_distribution (model dep_cond) is a COUNTER of the +inf entries: between 0 and the length (1 for
+   the single argument of a 2-d copula), equal to the length iff every entry is +inf, non-decreasing in every coordinate of the extended
+   line.  Against the dependent copula's own volume (dep_strip xi h x = volume of (xi, xi+h] x (-inf, x], Model/CopulaX6.v): h * counter IS
+   that volume at x = +-inf (every xi, the strip may straddle 0) and for every finite x <= xi; for finite x >= xi + h the strip has volume
+   h (conditional distribution 1) while the counter says 0 -- see the _refuted theorem. *)
+Theorem C11_dependent_conditional_counter :
+  (forall x : list (ext R), (dep_cond x <= length x)%nat /\ (dep_cond x = length x <-> List.Forall (fun t => t = PInf) x)) /\
+  (forall t : ext R, dep_cond [t] = if @xleb RNum PInf t then 1%nat else 0%nat) /\
+  (forall x y : list (ext R), List.Forall2 (fun a b => @xleb RNum a b = true) x y -> (dep_cond x <= dep_cond y)%nat) /\
+  (forall xi h, 0 < h -> dep_strip xi h PInf = h * INR (dep_cond [@PInf R]) /\ dep_strip xi h NInf = h * INR (dep_cond [@NInf R])) /\
+  (forall xi h x, 0 < h -> 0 < xi \/ xi + h < 0 -> x <= xi -> dep_strip xi h (Fin x) = h * INR (dep_cond [Fin x])) /\
+  (forall xi h x, 0 < h -> 0 < xi \/ xi + h < 0 -> xi + h <= x -> dep_strip xi h (Fin x) = h /\ dep_cond [Fin x] = 0%nat).
+Proof. exact w6_dependent_conditional_counter. Qed.
+
+(* ... hence the counter is NOT the conditional distribution of the completely dependent copula (which is the unit step at x = xi):
+   a strip (xi, xi+h] x (-inf, x] of volume h on which h * counter = 0.  The method has no caller in the library; C11's statement
+   speaks of the Clayton conditional distribution only (recorded as an observation, not as a violation). *)
+Theorem C11_dependent_conditional_is_volume_derivative_refuted :
+  exists xi h x, 0 < xi /\ 0 < h /\ dep_strip xi h (Fin x) = h /\ h * INR (dep_cond [Fin x]) <> dep_strip xi h (Fin x).
+Proof. exact w6_dependent_conditional_refuted. Qed.
+
+(* the closed-form inverse on the CLOSED interval [0,1] with numpy's conventions (clayton_inv_x, Model/CopulaX6.v), 0 < eta < 1, eps <> 0:
+   +inf at u = 1, -inf at u = 0, 0 at the plateau value, the finite model elsewhere; never nan on [0,1]; it is the two-sided inverse of the
+   extended conditional distribution -- a bijection between the extended line [-inf, +inf] and [0,1] -- and non-decreasing. *)
+Theorem C11_inverse_conditional_extended : forall th et eps, 0 < th -> 0 < et < 1 -> eps <> 0 ->
+  (clayton_inv_x th et eps 1 = PInf /\ clayton_inv_x th et eps 0 = NInf /\
+   clayton_inv_x th et eps (if Rleb 0 eps then 1 - et else et) = Fin 0) /\
+  (forall u, 0 < u < 1 -> u <> (if Rleb 0 eps then 1 - et else et) -> clayton_inv_x th et eps u = Fin (clayton_inv th et eps u)) /\
+  (forall u, 0 <= u <= 1 -> inv_defined th et eps u = true) /\
+  (forall x : ext R, clayton_inv_x th et eps (clayton_cond_x th et eps x) = x) /\
+  (forall u, 0 <= u <= 1 -> clayton_cond_x th et eps (clayton_inv_x th et eps u) = u) /\
+  (forall u v, 0 <= u <= 1 -> 0 <= v <= 1 -> u < v -> @xleb RNum (clayton_inv_x th et eps u) (clayton_inv_x th et eps v) = true).
+Proof. exact w6_inverse_conditional_extended. Qed.
+
+(* ClaytonCopula.__call__ on EVERY vector (clayton_x): the finite model when an entry is finite; on all-infinite vectors, 0 < eta < 1, the
+   value is defined and is +inf for an even number of -inf entries, -inf for an odd number; for eta in [0,1] the nan cases (inf * 0) are
+   exactly eta = 0 with an even and eta = 1 with an odd number of -inf entries.  Any dimension. *)
+Theorem C11_clayton_all_infinite : forall th et us,
+  (all_inf RNum us = false -> clayton_x_defined et us = true /\ clayton_x th et us = Fin (clayton th et us)) /\
+  (0 < et < 1 -> all_inf RNum us = true ->
+     clayton_x_defined et us = true /\ clayton_x th et us = if Nat.even (count_ninf RNum us) then PInf else NInf) /\
+  (0 <= et <= 1 -> all_inf RNum us = true ->
+     (clayton_x_defined et us = false <-> (et = 0 /\ Nat.even (count_ninf RNum us) = true) \/ (et = 1 /\ Nat.odd (count_ninf RNum us) = true))).
+Proof. exact w6_clayton_all_infinite. Qed.
+
+(* non-vacuity of the wave-6 theorems: concrete strips on both sides of 0, the inverse at an end point / the plateau / inside, Clayton on
+   all-infinite vectors of both parities, and both outcomes of clayton_x_defined *)
+Example C11_nonvacuous_w6 :
+  (dep_cond [@PInf R; Fin 2; PInf] = 2%nat /\ dep_strip 1 1 (Fin 3) = 1 /\ dep_strip (-3) 1 (Fin (-5)) = 0) /\
+  (clayton_inv_x 2 (/ 4) 3 1 = PInf /\ clayton_inv_x 2 (/ 4) (-3) (/ 4) = Fin 0 /\ clayton_cond_x 2 (/ 4) 3 (clayton_inv_x 2 (/ 4) 3 (/ 2)) = / 2) /\
+  (clayton_x 2 (/ 4) [NInf; PInf] = NInf /\ clayton_x 2 (/ 4) [NInf; NInf; PInf] = PInf /\
+   clayton_x_defined 0 [@PInf R; PInf] = false /\ clayton_x_defined 1 [@PInf R; PInf] = true).
+Proof. exact w6_nonvacuous. Qed.
+
 (* non-vacuity: the Q instances of the same definitions evaluate *)
 Open Scope Q_scope.
 Example C11_nonvacuous :
@@ -178,4 +233,9 @@ Print Assumptions C11_xderiv_dimension_link.
 Print Assumptions C11_conditional_distribution_extended.
 Print Assumptions C11_generated_models.
 Print Assumptions C11_nonvacuous_w5.
+Print Assumptions C11_dependent_conditional_counter.
+Print Assumptions C11_dependent_conditional_is_volume_derivative_refuted.
+Print Assumptions C11_inverse_conditional_extended.
+Print Assumptions C11_clayton_all_infinite.
+Print Assumptions C11_nonvacuous_w6.
 Print Assumptions C11_nonvacuous.
